@@ -13,6 +13,30 @@ Theorem C17_glob_exact : forall isRef pat, no_bom pat ->
 Proof. exact glob_exact. Qed.
 Print Assumptions C17_glob_exact.
 
+Theorem C17_glob_exact_bom_refuted :
+  exists isRef pat, valid isRef pat /\ validate_mode isRef pat <> Some [].
+Proof. exact glob_exact_bom_refuted. Qed.
+Print Assumptions C17_glob_exact_bom_refuted.
+
+(* the hypotheses of C17_glob_exact are satisfiable by a non-trivial pattern
+   ("v[0-9]+.*"), which is valid and accepted *)
+Theorem C17_glob_exact_example : valid true [118; 91; 48; 45; 57; 93; 43; 46; 42]%N /\
+  validate_ref [118; 91; 48; 45; 57; 93; 43; 46; 42]%N = Some [] /\
+  no_bom [118; 91; 48; 45; 57; 93; 43; 46; 42]%N.
+Proof. exact valid_example. Qed.
+Print Assumptions C17_glob_exact_example.
+
+(* ref_implies_path: every pattern accepted as a ref filter is accepted as a
+   path filter (via the spec: valid true pat -> valid false pat) *)
+Theorem C17_ref_implies_path : forall pat, no_bom pat ->
+  validate_ref pat = Some [] -> validate_path pat = Some [].
+Proof. exact ref_implies_path. Qed.
+Print Assumptions C17_ref_implies_path.
+
+Theorem C17_valid_ref_path : forall pat, valid true pat -> valid false pat.
+Proof. exact valid_ref_path. Qed.
+Print Assumptions C17_valid_ref_path.
+
 (* glob_fuel: validation terminates for every string — the fuel the wrappers
    supply (length + 1) is never exhausted, in either mode *)
 Theorem C17_glob_fuel : forall isRef pat, exists ds, validate_mode isRef pat = Some ds.
